@@ -94,6 +94,7 @@ def gen_case(rng: random.Random, tier: str):
         else:
             ops.append({"op": "str", "s": s})
     return {"cfg": cfg, "fields": fields, "slots": slots, "msize": msize, "img_seed": rng.getrandbits(32),
+            "prewidth": rng.choice(list(W)) if rng.random() < 0.3 else None,
             "root_at": rng.getrandbits(16), "kind": rng.choice(["bytesio", "sim"]), "ops": ops}
 
 
@@ -149,7 +150,20 @@ def run_case(case, stats):
     cfg = case["cfg"]
     fields = case["fields"]
     try:
-        cs = gen.make_cs(cfg, render(fields))
+        if case.get("prewidth") and case["prewidth"] != cfg["pointer"]:
+            # history: pointers to the same target types were first declared under ANOTHER configured width, then the
+            # configuration was changed; definitions loaded afterwards must use the width configured at that time
+            from dissect.cstruct import cstruct
+
+            cs = cstruct(endian=cfg["endian"], pointer=case["prewidth"])
+            cs.load("struct T { uint16 a; uint8 b; uint8 c[2]; };\n"
+                    "struct Pre { T *a; uint16 *b; char *c; uint8 *d; uint32 *e; int16 *f; uint64 *g; T **h; uint16 **i; char **j; };",
+                    compiled=cfg["compiled"], align=cfg["align"])
+            cs.pointer = cs.resolve(cfg["pointer"])
+            cs.load(render(fields).replace("struct T { uint16 a; uint8 b; uint8 c[2]; };\n", ""), compiled=cfg["compiled"], align=cfg["align"])
+            stats.count("probe.definitions_after_pointer_width_change")
+        else:
+            cs = gen.make_cs(cfg, render(fields))
         R = cs.R
     except Exception:
         raise Discard("load_fail")
